@@ -796,6 +796,7 @@ pub fn plan(property: &str, tier: &str) -> Option<CheckSpec> {
             let lim = limit_programs();
             let n3 = lim.len();
             b.add_batch(lim, false, false, &rules);
+            b.add_batch(noop_parents_programs(), false, false, &rules);
             // (d) calls from thread-local destructors
             let td = teardown_programs();
             let n4 = td.len();
@@ -826,6 +827,8 @@ pub fn plan(property: &str, tier: &str) -> Option<CheckSpec> {
         }
         "C16" => {
             let rules = [Rule::Liveness, Rule::NoPanic, Rule::Lazy, Rule::Elapsed, Rule::Ctx, Rule::NoExtra, Rule::Deliver];
+            b.add_batch(noop_parents_programs(), false, false, &rules);
+            b.add_batch(noop_parents_programs(), false, true, &rules);
             let mut g = GenCfg::base("C16-nonrecording");
             g.traces = vec![TraceOpt { trace: 0x16A, sampled: true, remote_parent: 0 }, TraceOpt { trace: 0x16B, sampled: false, remote_parent: 3 }];
             g.any_trace_order = true;
@@ -897,10 +900,11 @@ pub fn plan(property: &str, tier: &str) -> Option<CheckSpec> {
         let nu = b.add_gen(&u, cycles, u_configs, &rules, 3_000_000);
         // larger configurations (more threads, spans, parents, nesting, traces per cycle, quiet cycles)
         for &c in u_configs {
-            let mut big = big_programs();
-            // the four-thread program: hand-offs fix most of its order; preemption bound 1
-            let threads = big.remove(0);
-            b.add("SCHED", threads, c, Some(1), &rules, false);
+            // the multi-threaded ones: hand-offs fix most of their order; preemption bound 1
+            let (threaded, big): (Vec<Program>, Vec<Program>) = big_programs().into_iter().partition(|p| p.actors.iter().filter(|a| matches!(a.kind, ActorKind::Worker)).count() > 1);
+            for p in threaded {
+                b.add("SCHED", p, c, Some(1), &rules, false);
+            }
             b.add_batch(big, c, false, &rules);
         }
         rule_text = format!("{rule_text}; plus the universal family: {nu} programs over the whole operation alphabet (<= {} operations) x {cycles} cycle placement(s)", u.max_len);
